@@ -820,6 +820,8 @@ class ProgGen:
             f = form("jmp_r" if self.arch != 2 else "br")
             if r.random() < 0.4:
                 self.emit("SC %s" % hexs(self.rnd_comment()))
+            if r.random() < 0.4:
+                self.emit("SO %d" % self.cat.opt["Unfollow"])
             self.simple("IJ %d %d %s" % (f["id"], nann[0], " ".join(str(x) for x in f["ops"][0][1])), "annotated_jump")
             nann[0] += 1
 
@@ -827,6 +829,8 @@ class ProgGen:
             f = form("call_r" if self.arch != 2 else "blr")
             if r.random() < 0.3:
                 self.emit("SC %s" % hexs(self.rnd_comment()))
+            if r.random() < 0.4:
+                self.emit("SO %d" % r.choice([self.cat.opt["Overwrite"], self.cat.opt["Unfollow"], self.cat.opt["Overwrite"] | self.cat.opt["Unfollow"]]))
             self.simple("IV %d 0 %s" % (f["id"], " ".join(str(x) for x in f["ops"][0][1])), "invoke")
 
         for _ in range(r.randrange(1, 4)):
